@@ -687,3 +687,42 @@ _ISET_TIED = ('_add_dead', '_dead_index_count', '__len__', 'add', '_compact')
 _ISET = [_sp for _sp in _ISET if _sp['py'] in _ISET_TIED]
 INDEXED_SET['methods'] = _ISET
 SPECS['C11'] = SPECS['C11'] + _ISET
+
+# boltons.iterutils remap callbacks and get_path (round 3e, C08): OBJECT-GRAPH MODE, translated by harness/py2lean_c08.py
+# (notes/SRCTIE.md section "Object-graph mode").  Objects are references `V` into an abstract store `σ`, keys / path
+# segments are `K`; every duck-typed operation on an object is a field of the parameter record `PyRtC08.Ops σ V K`
+# (SPEC-DECLARED OPERATIONS); exceptions are values (class only).  `OptV` = the `_UNSET` sentinel or a value.
+# `static_false`: isinstance tests decided by the declared parameter type (a dotted-string path is outside the tie).
+_C08 = [
+    {'qualname': 'default_visit', 'params': {'path': 'Path', 'key': 'K', 'value': 'V'}, 'result': 'KV',
+     'tie_theorem': 'C08.src_default_visit_eq_model'},
+    {'qualname': 'default_enter', 'params': {'path': 'Path', 'key': 'K', 'value': 'V'}, 'result': 'EnterRes',
+     'tie_theorem': 'C08.src_default_enter_eq_model'},
+    {'qualname': 'default_exit', 'params': {'path': 'Path', 'key': 'K', 'old_parent': 'V', 'new_parent': 'V',
+                                             'new_items': 'Pairs'}, 'result': 'V',
+     'tie_theorem': 'C08.src_default_exit_eq_model'},
+    {'qualname': 'get_path', 'params': {'root': 'V', 'path': 'Path', 'default': 'OptV'}, 'result': 'V',
+     'sentinel': '_UNSET', 'static_false': [('path', 'str')], 'tie_theorem': 'C08.src_get_path_eq_model'},
+]
+for _sp in _C08:
+    _sp.update(module='boltons.iterutils', lean_name=_sp['qualname'], kind='function', raises=True,
+               translator='py2lean_c08', gen_file='iterutils_remap')
+# the main loop of remap (LOOP MODE, notes/SRCTIE.md 7.6): from the initialisation of `stack` to `return value`; the
+# callbacks are function parameters, `visit is _orig_default_visit` is the Bool `visit_is_default`, `reraise_visit` a Bool,
+# the `None` key of the root entry is `none_key`; statements printing under a trace flag are not modelled.
+_C08_LOOP = {
+    'qualname': 'remap', 'lean_name': 'remap_loop', 'kind': 'loop', 'result': 'V', 'raises': True,
+    'module': 'boltons.iterutils', 'translator': 'py2lean_c08', 'gen_file': 'iterutils_remap',
+    'params': {'root': 'V', 'visit': 'VisitFn', 'enter': 'EnterFn', 'exit': 'ExitFn', 'visit_is_default': 'Bool',
+               'reraise_visit': 'Bool', 'none_key': 'K'},
+    'loop': {'signature': ['root', 'visit', 'enter', 'exit'], 'stack': 'stack', 'exit_marker': '_REMAP_EXIT',
+             'none_key': 'none_key', 'result_var': 'value',
+             'locals': {'path': 'Path', 'registry': 'Registry', 'stack': 'Stack', 'new_items_stack': 'NIS', 'entered': 'Vals'},
+             'callbacks': {'enter': ('enter', ['Path', 'K', 'V'], 'EnterRes'),
+                           'exit': ('exit_', ['Path', 'K', 'V', 'V', 'Pairs'], 'V'),
+                           'visit': ('visit', ['Path', 'K', 'V'], 'VisitRes')},
+             'identity_flags': [('visit', '_orig_default_visit', 'visit_is_default')],
+             'trace_flags': ['trace_enter', 'trace_exit', 'trace_visit']},
+    'tie_theorem': 'C08.src_remap_loop_simulates_hstep'}
+_C08.append(_C08_LOOP)
+SPECS['C08'] = _C08
